@@ -22,7 +22,7 @@ MIN_EVENTS = {"edge-mask-checked": (500, 20000), "iff-pair-checked": (200, 5000)
 ASSUMPTIONS = ["TaxonNamespace.taxon_bitmask is taken as the given taxon->bit assignment (its stability is C10)",
                "reference clades/splits are computed on a DendroPy-free spec extracted from the raw child lists"]
 
-NSCFG = ("exact", "larger", "removed", "sorted", "reversed")
+NSCFG = ("exact", "larger", "removed", "sorted", "reversed", "readded")
 
 
 def cases(tier, seed):
@@ -60,6 +60,20 @@ def make_ns(labels, cfg, rng):
         ns = dendropy.TaxonNamespace(allv)
         for x in ("X0", "X1", "X2", "X3"):
             ns.remove_taxon_label(x)
+        return ns
+    if cfg == "readded":
+        # some members are removed and the SAME Taxon objects added back after their bits had been computed:
+        # they are accessioned anew, every derived mask must follow
+        ns = dendropy.TaxonNamespace(labels + ["X0"])
+        for t in ns:
+            ns.taxon_bitmask(t)
+        victims = [t for t in ns if rng.random() < 0.5] or [ns[0]]
+        for t in victims:
+            ns.remove_taxon(t)
+        rng.shuffle(victims)
+        for t in victims:
+            if t.label != "X0":
+                ns.add_taxon(t)
         return ns
     if cfg in ("sorted", "reversed"):
         sh = labels[:]
@@ -117,6 +131,16 @@ def check_encoding(ctx, tree, ns, rooted, where, pre_topology=None, flags=None):
             ctx.violation("%s|leafset-bitmask-wrong" % where,
                           "leafset bitmask %s != taxa below edge %s" % (bin(b._leafset_bitmask or 0), bin(lm)),
                           {"tree": ref.to_newick(spec), "clade": sorted(c), "bits": bits, "flags": flags})
+            return None
+        # the mask must decode, through the namespace's own public mapping, to exactly the taxa below the edge
+        try:
+            decoded = sorted(x.label for x in ns.bitmask_taxa_list(b._leafset_bitmask or 0))
+        except Exception as e:
+            decoded = "%s: %s" % (type(e).__name__, e)
+        if decoded != sorted(c):
+            ctx.violation("%s|leafset-bitmask-does-not-decode-to-the-taxa-below-the-edge" % where,
+                          "bitmask_taxa_list(%s) = %s, taxa below the edge %s" % (bin(b._leafset_bitmask or 0), decoded, sorted(c)),
+                          {"tree": ref.to_newick(spec), "bits": bits, "flags": flags})
             return None
         sm = expected_split(lm, treemask, rooted)
         if b.split_bitmask != sm or e.split_bitmask != sm:
